@@ -747,6 +747,11 @@ class SimCluster:
             if again.encode() != data[4:]:
                 raise SimBug(f"reply {resp!r} does not round-trip")
         self._trace_reply(rq, resp)
+        if conn.closing or conn.server_closed:
+            # closed while the reply was being traced (an environment step run re-entrantly):
+            # nothing may be queued behind the EOF
+            self._finish(rq)
+            return
         loop = self.loop
         t = loop._vt + self.latency(conn.node.id, self.rng_latency)
         if t < conn.last_deliver:
